@@ -42,6 +42,47 @@ def handle (line : String) : String :=
     | "inventory" =>
       if !c.atEnd then none
       pure (" ## ".intercalate inventory)
+    | "mallocs" =>
+      if !c.atEnd then none
+      pure (" ## ".intercalate mallocInventory)
+    | "temp" =>
+      -- temp <name> <params…> : allocated size, in-bounds flag, accessed cells
+      let (name, c) ← c.str?
+      let t : Option (Temp × Cur) := match name with
+        | "atom_list_reverse" => do
+          let (npos, c) ← c.nat?
+          let (len, c) ← c.nat?
+          let (al, c) ← c.nats? len
+          let (nm, c) ← c.nat?
+          let (ma, c) ← c.nats? nm
+          pure (tAtomListReverse npos len (tab al) (tab ma), c)
+        | "done" => do
+          let (ns, c) ← c.nat?
+          let (np, c) ← c.nat?
+          let (s2pp, c) ← c.nats? ns
+          let (it, c) ← c.nats? (ns * np)
+          pure (tDone ns np (tab s2pp) (fun j ip => it.getD (j * np + ip) 0), c)
+        | "gp2ir" => do
+          let (ngp, c) ← c.nat?
+          let (gmt, c) ← c.nats? ngp
+          pure (tGp2ir ngp (tab gmt) [], c)
+        | "ir_grid_points" => do
+          let (nir, c) ← c.nat?
+          let (ngp, c) ← c.nat?
+          let (gmt, c) ← c.nats? ngp
+          pure (tIrGridPoints nir ngp (tab gmt), c)
+        | "charge_sum" => do let (n, c) ← c.nat?; pure (tChargeSum n, c)
+        | "q_born" => do let (n, c) ← c.nat?; pure (tQBorn n, c)
+        | "dnac" => do let (n, c) ← c.nat?; pure (tDnac n, c)
+        | "ddnac" => do let (n, c) ← c.nat?; pure (tDdnac n, c)
+        | "dd_tmp" => do let (n, c) ← c.nat?; pure (tDdTmp n, c)
+        | "kk" => do let (n, c) ← c.nat?; pure (tKK n, c)
+        | "tp" => do let (a, c) ← c.nat?; let (b, c) ← c.nat?; pure (tTp a b, c)
+        | "gsv_vec" => do let (n, c) ← c.nat?; pure (tGsvVec n, c)
+        | _ => none
+      let (t, c) ← t
+      if !c.atEnd then none
+      pure (s!"{t.size} {t.inBoundsB} {showRanges t.accesses}")
     | "loop" =>
       -- loop <name> <k> <params…> : iters, size, brute-force disjointness / bounds, union of writes
       let (name, c) ← c.str?
